@@ -17,6 +17,9 @@ Families:
          terms, recorded constraints, num_ancillas, is_solution_valid and the ancilla names of later constraints must be
          exactly as if the step had not happened
   lbl    the same abstract case under all four label realisations must give the same abstract result
+  mag    extreme-magnitude weights: every template x relation, random calls and histories with lam a small multiple of one
+         power-of-two scale per case (2^-60, 3*2^-70, 2^-55, 2^-100, 2^60, 3*2^70), as exact numbers and as floats (PCSO
+         penalties are computed through floats inside the library; on one scale that arithmetic is exact); compared exactly
 
 Every case is run on the real `qubovert.PCSO` and on the Lean model (`op: pcso_cons`); compared exactly after
 every step: terms, `constraints`, `num_ancillas`, warnings, `is_solution_valid` on all spin assignments, and (observed
@@ -41,7 +44,8 @@ RULE = ("calls PCSO.add_constraint_R_zero(H, lam, log_trick, bounds, suppress_wa
         "(running-expression histories), bookkeeping-neutral steps on the PCSO between and after the calls (refresh, copy, "
         "+= 0, cancelling item edit, subs of an unused symbol; skipped by the pure model), 4 label realisations, int/Fraction or dyadic float coefficients; "
         "6 relations x log_trick x bounds modes {none, (None,None), exact, loose, left, right, fractional loose} "
-        "(valid for the range of H) x lam in {1,2,1/2,3} (+ lam=0 rarely); non-trivial = some step adds a penalty with "
+        "(valid for the range of H) x lam in {1,2,1/2,3} (+ lam=0 rarely), family mag: lam a small multiple of one "
+        "extreme power-of-two scale per case (2^-100 .. 3*2^70, exact and float); non-trivial = some step adds a penalty with "
         ">=2 terms; distinct = distinct case JSON")
 ASSUMPTIONS = ["given bounds are valid enclosures of H's range over spin assignments (= the boolean image's range); "
                "lam > 0 (lam = 0 is compared with the model but not judged by the oracle)",
@@ -794,6 +798,41 @@ def process(ctx, cases, all_styles=False):
                     if bad:
                         ctx.violation("C03:labels", dict(c, labels=style), bad)
 
+# one power-of-two scale per case (2^-60, 3*2^-70, 2^-55, 2^-100, 2^60, 3*2^70): PCSO penalties are computed through
+# pubo_to_puso, i.e. in floats, which is exact as long as every coefficient is a small-integer multiple of one power of two
+MAG_SCALES = ["1/1152921504606846976", "3/1180591620717411303424", "1/36028797018963968",
+              "1/1267650600228229401496703205376", "1152921504606846976", "3541774862152233910272"]
+
+def mag_cases(rng, reps):
+    """extreme-magnitude weights: every template x relation with one weight per scale, random single calls and random
+    histories whose weights are small multiples of one scale; exact (int / Fraction) and float weights"""
+    out, idx = [], 0
+    tmpls = [(nm, items_of(spin_of_bool(P))) for nm, P in BOOL_TEMPLATES] + [(nm, items_of(H)) for nm, H in SPIN_TEMPLATES]
+    for nm, items in tmpls:
+        n = case_n([{"H": items}])
+        for rel in RELS:
+            lam = MAG_SCALES[idx % len(MAG_SCALES)]
+            st = make_step(rng, items, n, rel, True, BMODES[idx % 7], lam, sup=(idx % 11 == 5),
+                           hkind=["dict", "PUSO", "dict", "PCSO"][idx % 4], coef="float" if idx % 3 == 1 else "exact")
+            out.append(mk_case("mag", [st], Labels.STYLES[idx % 4], nm))
+            idx += 1
+    for _ in range(reps):
+        c = rand_case(rng, rng.choice([1, 1, 2, 3]))
+        scale = Fraction(rng.choice(MAG_SCALES))
+        coef = "float" if rng.random() < 0.3 else "exact"
+        for st in c["seq"]:
+            if st["lam"] != "0":
+                st["lam"] = fs(scale * rng.choice([1, 1, 2, 3]))
+            st["coef"] = coef
+            # the neutral step "cancel" (+5 then -5 on a stored float) is not neutral next to a coefficient of size 2^-60
+            if st.get("pre"):
+                st["pre"] = ["iadd0" if op == "cancel" else op for op in st["pre"]]
+        if c.get("tail"):
+            c["tail"] = ["refresh" if op == "cancel" else op for op in c["tail"]]
+        c["family"] = "mag"
+        out.append(c)
+    return out
+
 def check(ctx):
     rng = ctx.rng
     cases = tmpl_cases(rng, ctx.tier == "thorough")
@@ -809,7 +848,8 @@ def check(ctx):
     for i, c in enumerate(runs):
         if i % 7 == 0:
             c["allstyles"] = True
-    process(ctx, cases + rnd + seqs + runs)
+    mags = mag_cases(rng, ctx.scale(150, 2500))        # generated last: the earlier streams are unchanged
+    process(ctx, cases + rnd + seqs + runs + mags)
     missing = [t for t in ALL_TAGS if ctx.hist.get("branch:" + t, 0) < 5]
     if missing:
         raise common.Infra("coverage self-check: helper branches hit fewer than 5 times: %s" % missing)
